@@ -137,7 +137,7 @@ def c_line(n):
 
 
 INT_CTYPES = ("npy_intp", "int", "long", "Py_ssize_t", "ssize_t", "size_t", "unsigned long", "unsigned int", "unsigned", "npy_int64",
-              "long long", "short", "char", "intptr_t", "npy_int", "npy_long")
+              "long long", "short", "char", "intptr_t", "npy_int", "npy_long", "_Bool", "bool", "unsigned char", "npy_bool")
 FLOAT_CTYPES = ("double", "float", "npy_double", "npy_float64", "long double")
 
 
@@ -148,7 +148,7 @@ def ctype_class(t):
         return "arr"
     if t.endswith("*"):
         return "ptr"
-    if t in INT_CTYPES:
+    if t in INT_CTYPES or t.startswith("enum "):
         return "int"
     if t in FLOAT_CTYPES:
         return "float"
@@ -174,6 +174,8 @@ class CFunc:
                 self.qual[c.get("name")] = q
         self.labels = {}
         self._collect_labels(fdecl)
+        self.enums = {}            # id of an enumerator declared inside this function -> its value
+        self._collect_enums(fdecl)
         body = [c for c in fdecl["inner"] if c.get("kind") == "CompoundStmt"][0]
         self.body = self.block(body)
 
@@ -184,6 +186,37 @@ class CFunc:
                 self.labels[n.get("declId")] = n.get("name")
             for c in n.get("inner", []) or []:
                 self._collect_labels(c)
+
+    def _collect_enums(self, n):
+        """`enum { READ_NEXT, HALF_CYCLE, FULL_CYCLE } action;` inside the function: the enumerators are the integers 0, 1, 2 (explicit values
+        when they are literals)"""
+        if not isinstance(n, dict):
+            return
+        if n.get("kind") == "EnumDecl":
+            nxt = 0
+            for c in n.get("inner", []) or []:
+                if c.get("kind") != "EnumConstantDecl":
+                    continue
+                val = None
+                for x in c.get("inner", []) or []:
+                    y = x
+                    while isinstance(y, dict) and y.get("kind") in ("ConstantExpr", "ImplicitCastExpr", "ParenExpr") and y.get("inner"):
+                        if "value" in y:
+                            break
+                        y = y["inner"][0]
+                    if isinstance(y, dict) and "value" in y:
+                        try:
+                            val = int(y["value"])
+                        except (TypeError, ValueError):
+                            val = None
+                if val is None and any(True for _ in (c.get("inner") or [])):
+                    return          # an explicit value this reader cannot evaluate: leave the whole enumeration symbolic
+                if val is None:
+                    val = nxt
+                self.enums[c.get("id")] = val
+                nxt = val + 1
+        for c in n.get("inner", []) or []:
+            self._collect_enums(c)
 
     @staticmethod
     def _strip(n):
@@ -225,6 +258,8 @@ class CFunc:
         if k == "DeclRefExpr":
             rd = n.get("referencedDecl") or {}
             if rd.get("kind") in ("EnumConstantDecl",):
+                if rd.get("id") in self.enums:
+                    return ("num", Fraction(self.enums[rd.get("id")]))
                 return ("sym", rd.get("name"))
             if rd.get("kind") == "FunctionDecl":
                 return ("sym", rd.get("name"))
